@@ -58,10 +58,22 @@ func c09FieldVal(f driver.VerifC09Field) Term {
 	return L(S("unsupported-kind"), S(f.Kind))
 }
 
+var c09DefaultRender []string
+
+// c09Dump renders a configuration as the list of (field index, value) that differ from the default
+// configuration (the full value vector is 33 terms; most stay at their default).
 func c09Dump(fs []driver.VerifC09Field) Term {
+	if c09DefaultRender == nil {
+		for _, f := range driver.VerifC09Default() {
+			c09DefaultRender = append(c09DefaultRender, Render(c09FieldVal(f)))
+		}
+	}
 	var l []Term
-	for _, f := range fs {
-		l = append(l, c09FieldVal(f))
+	for i, f := range fs {
+		v := c09FieldVal(f)
+		if i >= len(c09DefaultRender) || Render(v) != c09DefaultRender[i] {
+			l = append(l, L(ZI(i), v))
+		}
 	}
 	return L(l...)
 }
@@ -805,7 +817,7 @@ func runC09(c *Ctx) {
 	for _, n := range allNames {
 		for _, pool := range pools {
 			for _, v := range pool {
-				if c.Tier == "thorough" || r.P(1, 4) {
+				if c.Tier == "thorough" || r.P(1, 6) {
 					c09Set(c, "set-matrix", n, v)
 				}
 			}
@@ -858,7 +870,7 @@ func runC09(c *Ctx) {
 		}
 		c09Session(c, "session-pool", p, []string{l}, false)
 	}
-	for k := 0; k < c.Budget(900, 40000); k++ {
+	for k := 0; k < c.Budget(600, 40000); k++ {
 		p := c09Profile(r, false)
 		var lines []string
 		for j := 1 + r.Intn(4); j > 0; j-- {
@@ -869,7 +881,7 @@ func runC09(c *Ctx) {
 
 	// --- exploration: sessions with real reports, web requests, command lines
 	t0 := time.Now()
-	for k := 0; k < c.Budget(500, 40000); k++ {
+	for k := 0; k < c.Budget(400, 40000); k++ {
 		p := c09Profile(r, false)
 		var lines []string
 		for j := 1 + r.Intn(4); j > 0; j-- {
